@@ -612,6 +612,11 @@ func (x *Exec) callContract(fr *Frame, st *State, fn *ssa.Function, fc *FuncCont
 	// the callee may have called whatever its static call graph reaches: those entries of the
 	// caller's ghost call log are stale (everything, if the callee makes dynamic calls)
 	may := x.mayCall(fn)
+	if fc.Trusted && !fc.ModAll {
+		// a trusted contract is assumed to state the callee's effects completely, the ghost call log included
+		may = map[string]bool{}
+		x.c.note("assumed: trusted callee %s makes no calls that matter to the ghost call log", shortFuncName(fn))
+	}
 	ownKey := contractKey(fn)
 	ownArgs, hadOwn := st.calls[ownKey]
 	ownCount, hadCount := st.ghost["ncalls:"+ownKey]
